@@ -26,6 +26,7 @@ func ParseFile(filename string) (interface{}, error) {
 	}
 	// Invoke the root rule 'Packet' to parse the file
 	tree := parser.Packet()
+	reportUnparsedInput(stream, listener)
 	if listener.HasErrors() {
 		return nil, fmt.Errorf("syntax errors found: %v", listener.Errors)
 	}
